@@ -100,8 +100,9 @@ package packets
 //@ ensures content: r2 == nil ==> (forall i int :: 0 <= i && i < len(r0) ==> r0[i] == buf[offset+2+i])
 //@ ensures bounds: 0 <= r1 && r1 <= len(buf)
 
-// verif:func packets.Properties.Decode nilrecv modifies=all
+// verif:func packets.Properties.Decode nilrecv
 //@ requires b != nil && 0 <= b.rpos && b.rpos <= b.blen && b.blen <= 1099511627776
+//@ modifies fields(p), b.rpos
 //@ ensures consumed-within: err == nil ==> 0 <= n && n <= old(b.blen) - old(b.rpos)
 // verif:loop packets.Properties.Decode 1
 //@ invariant 0 <= offset && offset <= len(bt)
@@ -111,10 +112,20 @@ package packets
 // verif:func packets.Packet.ConnectDecode modifies=all
 // verif:func packets.Packet.ConnackDecode modifies=all
 // verif:func packets.Packet.DisconnectDecode modifies=all
+//@ requires pk.FixedHeader.Remaining == len(buf)
+//@ ensures len0: old(pk.ProtocolVersion) == 5 && len(buf) == 0 ==> r0 == nil && pk.ReasonCode == old(pk.ReasonCode)
+//@ ensures len1: old(pk.ProtocolVersion) == 5 && len(buf) == 1 ==> r0 == nil && pk.ReasonCode == buf[0]
+//@ ensures len2plus: old(pk.ProtocolVersion) == 5 && len(buf) >= 2 && r0 == nil ==> pk.ReasonCode == buf[0]
 // verif:func packets.Packet.PingreqDecode modifies=all
 // verif:func packets.Packet.PingrespDecode modifies=all
 // verif:func packets.Packet.PublishDecode modifies=all
 // verif:func packets.Packet.decodePubAckRelRecComp modifies=all
+//@ requires pk.FixedHeader.Remaining == len(buf)
+//@ ensures len2: len(buf) == 2 ==> r0 == nil && int(pk.PacketID) == u16(buf, 0) && pk.ReasonCode == old(pk.ReasonCode)
+//@ ensures len3: old(pk.ProtocolVersion) == 5 && len(buf) == 3 ==> r0 == nil && int(pk.PacketID) == u16(buf, 0) && pk.ReasonCode == buf[2]
+//@ ensures len4plus: old(pk.ProtocolVersion) == 5 && len(buf) >= 4 && r0 == nil ==> int(pk.PacketID) == u16(buf, 0) && pk.ReasonCode == buf[2]
+//@ ensures v3: old(pk.ProtocolVersion) != 5 && len(buf) >= 2 ==> r0 == nil && int(pk.PacketID) == u16(buf, 0)
+//@ ensures too-short: len(buf) < 2 ==> r0 != nil
 // verif:func packets.Packet.PubackDecode modifies=all
 // verif:func packets.Packet.PubcompDecode modifies=all
 // verif:func packets.Packet.PubrecDecode modifies=all
@@ -128,3 +139,7 @@ package packets
 // verif:loop packets.Packet.UnsubscribeDecode 1
 //@ invariant 0 <= offset && offset <= len(buf)
 // verif:func packets.Packet.AuthDecode modifies=all
+//@ requires pk.FixedHeader.Remaining == len(buf)
+//@ ensures len0: len(buf) == 0 ==> r0 == nil && pk.ReasonCode == old(pk.ReasonCode)
+//@ ensures len1: len(buf) == 1 ==> r0 == nil && pk.ReasonCode == buf[0]
+//@ ensures len2plus: len(buf) >= 2 && r0 == nil ==> pk.ReasonCode == buf[0]
